@@ -763,6 +763,9 @@ class MasterSim(object):
             return self.op_up(idx)
         old = self.server_records[name]
         self.count('uptrait')
+        if mask is None:
+            # plain bounce: the very same record
+            mask = old['traits']
         return self._up(name, {'cap': old['cap'], 'traits': mask,
                                'style': old.get('style', 0)})
 
